@@ -84,6 +84,25 @@ func VC_C10_present() {
 	verifReached("C10.present")
 }
 
+// VC_C10_stripped: the pc-line table (functions) is there but the ELF symbol table (data
+// symbols) is stripped, which is what plain `go test` links: function lookups are still
+// exact under the load slide, variable lookups fail with an error.
+func VC_C10_stripped() {
+	fa, _, st, _ := vSetup()
+	vTable.Syms = nil
+	i := verifChoice("i", 3)
+	a, err, p := vFind(vFuncNames[i], false)
+	verifAssert(!p && err == nil, "C10.stripped.func-present-resolves")
+	verifAssert(a == uintptr(fa[i])+st, "C10.stripped.func-exact-runtime-address")
+	b, err2, p2 := vFind(vVarNames[i], true)
+	verifAssert(p2 || err2 != nil, "C10.stripped.var-is-error")
+	verifAssert(b == 0, "C10.stripped.var-no-address")
+	// in either order
+	a2, err3, p3 := vFind(vFuncNames[(i+1)%3], false)
+	verifAssert(!p3 && err3 == nil && a2 == uintptr(fa[(i+1)%3])+st, "C10.stripped.func-exact-after-failed-var-lookup")
+	verifReached("C10.stripped")
+}
+
 // VC_C10_absent: absent and near-miss names yield an error, never an address.
 func VC_C10_absent() {
 	vSetup()
